@@ -5,9 +5,20 @@ open Strax Strax.Storage Strax.Copy Strax.Driver Strax.Driver.C03
 
 def a0 : Int := Generated.getSplitsArgmin0
 
+/-- chunk info as `checks/props/c16.py` prints it: the C03 format without the `filesize` flag (it depends
+on serial / executor saving, which the C16 model does not distinguish; the oracle checks it) -/
+def showInfo16 (c : ChunkInfo) : String :=
+  "/".intercalate [toString c.i, toString c.n, toString c.start, toString c.stop, showStrOpt c.runId,
+    showRunsOpt (c.subruns.map jsonRuns), showIntOpt c.firstTime, showIntOpt c.firstEnd, showIntOpt c.lastTime,
+    showIntOpt c.lastEnd, showStrOpt c.filename, toString c.nbytes]
+
+def showMeta16 (m : Meta) : String :=
+  s!"start={showIntOpt m.start} end={showIntOpt m.stop} we={showB m.writingEnded} exc={showB m.exception} chunks=" ++
+  (if m.chunks.isEmpty then "-" else ";".intercalate (m.chunks.map showInfo16))
+
 def showDir : Option Dir → String
   | none => "absent"
-  | some (m, fs) => s!"{showMeta m} ## {showFiles fs}"
+  | some (m, fs) => s!"{showMeta16 m} ## {showFiles fs}"
 
 def showLoaded (r : Except Err (List Chunk)) : String := showExcept showChunks r
 
@@ -76,35 +87,39 @@ open Strax Strax.Storage Strax.Copy Strax.Driver.C03 Strax.Driver.C16
 /-- ops of property C16.  The stored layout is given as raw chunks; the source directory is what
 the plain saver makes of them (`saveAll … false`).
 
-`c16.copy <rechunk> <rechunkTo> <runId> <dataType> <kind> <target> <pfx> <rawchunk>*`
-  → `ok <meta> ## <files> ## <loaded>` of the destination
-`c16.rechunk <replace> <rechunk> <target|-> <aliased> <runId> <dataType> <kind> <hdrTarget> <pfx> <rawchunk>*`
+`c16.copy <nTargets> <rechunk> <rechunkTo> <runId> <dataType> <kind> <target> <itemsize> <pfx> <rawchunk>*`
+  → `ok <meta> ## <files> ## <loaded>` of every destination, joined by ` @@ `
+`c16.rechunk <replace> <rechunk> <target|-> <aliased> <runId> <dataType> <kind> <hdrTarget> <itemsize> <pfx> <rawchunk>*`
   → `<op kinds> ## e=<Err|-> ## src=<dir|absent> ## dst=<dir|absent> ## tmp=<…> ## <loaded from where the result lives>`
-`c16.rol <sourceSize> <runId> <dataType> <kind> <target> <pfx> <rawchunk>*` → `ok <chunks>`
-`c16.merge <rechunkOnSave> <rechunk> <rechunkTo> <mod> <runId> <tgtType> <tgtTarget> <tgtPfx> <sizes a+b> <jobPfx,…> <selection i+j> <srcTarget> <srcPfx> <rawchunk>*`
+`c16.rol <sourceSize> <runId> <dataType> <kind> <target> <itemsize> <pfx> <rawchunk>*` → `ok <chunks>`
+`c16.merge <rechunkOnSave> <rechunk> <rechunkTo> <mod> <itemsize> <runId> <tgtType> <tgtTarget> <tgtPfx> <sizes a+b> <jobPfx,…> <selection i+j> <srcTarget> <srcPfx> <rawchunk>*`
   → `ok key=<plain|a+b|Err> ## <meta> ## <files> ## <loaded>`
 `c16.keys <entry,entry> <request>*` → `ok <class|Err> …` -/
 def handleC16 : List String → Option String
-  | "c16.copy" :: rechunk :: rechunkTo :: rid :: dt :: kind :: target :: pfx :: cs => do
+  | "c16.copy" :: nTargets :: rechunk :: rechunkTo :: rid :: dt :: kind :: target :: isz :: pfx :: cs => do
+    let isz ← isz.toNat?
+    let nt ← nTargets.toNat?
     let re ← parseBool rechunk
     let rt ← rechunkTo.toNat?
     let tg ← target.toNat?
     let cs ← cs.mapM parseRawChunk
-    let hdr : Header := { runId := rid, dataType := dt, kind := kind, target := tg, pfx := pfx }
+    let hdr : Header := { runId := rid, dataType := dt, kind := kind, target := tg, pfx := pfx, itemsize := isz }
     match rawChunksToChunks cs >>= saveAll a0 false hdr with
     | .error e => pure s!"err-source {e.name}"
     | .ok src =>
-      match copyData a0 src re rt with
-      | .error e => pure s!"err {e.name}"
-      | .ok d => pure s!"ok {showDir (some d)} ## {showLoaded (loadDir d)}"
-  | "c16.rechunk" :: replace :: rechunk :: target :: aliased :: rid :: dt :: kind :: hdrTarget :: pfx :: cs => do
+      let one (r : Except Err Dir) : String := match r with
+        | .error e => s!"err {e.name}"
+        | .ok d => s!"ok {showDir (some d)} ## {showLoaded (loadDir d)}"
+      pure (" @@ ".intercalate ((copyToAll a0 src re rt nt).map one))
+  | "c16.rechunk" :: replace :: rechunk :: target :: aliased :: rid :: dt :: kind :: hdrTarget :: isz :: pfx :: cs => do
+    let isz ← isz.toNat?
     let rp ← parseBool replace
     let re ← parseBool rechunk
     let tg ← parseNatOpt target
     let al ← parseBool aliased
     let ht ← hdrTarget.toNat?
     let cs ← cs.mapM parseRawChunk
-    let hdr : Header := { runId := rid, dataType := dt, kind := kind, target := ht, pfx := pfx }
+    let hdr : Header := { runId := rid, dataType := dt, kind := kind, target := ht, pfx := pfx, itemsize := isz }
     match rawChunksToChunks cs >>= saveAll a0 false hdr with
     | .error e => pure s!"err-source {e.name}"
     | .ok src =>
@@ -116,16 +131,18 @@ def handleC16 : List String → Option String
         | some d => showLoaded (loadDir d)
         | none => "absent"
       pure s!"{" ".intercalate (ops.map FsOp.kind)} ## e={showErrOpt e} ## src={showDir fin.src} ## dst={showDir fin.dst} ## tmp={if fin.tmp.isSome then "present" else "absent"} ## {loaded}"
-  | "c16.rol" :: size :: rid :: dt :: kind :: target :: pfx :: cs => do
+  | "c16.rol" :: size :: rid :: dt :: kind :: target :: isz :: pfx :: cs => do
+    let isz ← isz.toNat?
     let sz ← size.toNat?
     let tg ← target.toNat?
     let cs ← cs.mapM parseRawChunk
-    let hdr : Header := { runId := rid, dataType := dt, kind := kind, target := tg, pfx := pfx }
+    let hdr : Header := { runId := rid, dataType := dt, kind := kind, target := tg, pfx := pfx, itemsize := isz }
     match rawChunksToChunks cs >>= saveAll a0 false hdr with
     | .error e => pure s!"err-source {e.name}"
     | .ok src => pure (showLoaded (rechunkOnLoadExec true true a0 sz src))
-  | "c16.merge" :: ros :: rechunk :: rechunkTo :: m :: rid :: tdt :: ttarget :: tpfx :: sizes :: jobPfx :: sel ::
+  | "c16.merge" :: ros :: rechunk :: rechunkTo :: m :: isz :: rid :: tdt :: ttarget :: tpfx :: sizes :: jobPfx :: sel ::
       starget :: spfx :: cs => do
+    let isz ← isz.toNat?
     let ros ← parseBool ros
     let re ← parseBool rechunk
     let rt ← rechunkTo.toNat?
@@ -140,14 +157,14 @@ def handleC16 : List String → Option String
     | .error e => pure s!"err-source {e.name}"
     | .ok cs =>
       let kind := (cs.head?.map (·.kind)).getD "k"
-      let shdr : Header := { runId := rid, dataType := (cs.head?.map (·.dataType)).getD "src", kind := kind, target := stg, pfx := spfx }
+      let shdr : Header := { runId := rid, dataType := (cs.head?.map (·.dataType)).getD "src", kind := kind, target := stg, pfx := spfx, itemsize := isz }
       -- the dependency as stored and loaded back (what the per-chunk loader yields)
       match saveAll a0 false shdr cs >>= loadDir with
       | .error e => pure s!"err-source {e.name}"
       | .ok dep =>
         let groups := splitGroups sizes dep
-        let hdrs := jp.map fun p => ({ runId := rid, dataType := tdt, kind := kind, target := tt, pfx := p } : Header)
-        let thdr : Header := { runId := rid, dataType := tdt, kind := kind, target := tt, pfx := tpfx }
+        let hdrs := jp.map fun p => ({ runId := rid, dataType := tdt, kind := kind, target := tt, pfx := p, itemsize := isz } : Header)
+        let thdr : Header := { runId := rid, dataType := tdt, kind := kind, target := tt, pfx := tpfx, itemsize := isz }
         match runJobs a0 (tgtCompute tdt tt m) ros hdrs groups with
         | .error e => pure s!"err-job {e.name}"
         | .ok jobs =>
